@@ -29,23 +29,26 @@ func init() {
 			"F3m three hooks, the 6 mixed phase vectors x one policy for all; F3p three hooks of one phase, all 125 policy vectors; F3o three hooks of one phase, the 13 weak orders of weights (27 vectors thorough) x 4 (8) kind vectors x one policy for all; " +
 			"Fw2 two hooks of one phase, all 49 ordered weight pairs over {MinInt64,-2^62,-1,0,1,2^62,MaxInt64} x 4 kind vectors, clean cluster only; Fw3 three hooks of one phase, all 125 ordered weight triples over {MinInt64,-1,0,1,MaxInt64} x 8 kind vectors, clean cluster only, history cut after the first (thorough: second) operation; " +
 			"F2e (thorough) two hooks on all 64 pairs of single events) and every initial cluster (clean | one stale object per hook | all stale): " +
-			"BFS over histories install -> {upgrade -> {rollback -> U | U(thorough)} | U} with U = uninstall | uninstall --keep-history, every step with hooks on and (terminal) with hooks disabled, thorough also U after every failed step; " +
+			"BFS over histories install -> {upgrade -> {rollback -> U | U(thorough)} | U} with U = uninstall | uninstall --keep-history, every step with hooks on and (terminal) with hooks disabled; a failed upgrade is followed by rollback (which runs the hooks stored with the target revision against what the failed upgrade left behind); " +
+			"hook sets that do not run at install also get install -> upgrade -> upgrade -> rollback; thorough also uninstall after every failed step; install and upgrade also with --atomic + hooks disabled + the readiness wait failing (no hook request may appear in the automatic uninstall/rollback); " +
 			"every transition is the real action on a clone of the state, run fault-free and once per hook-create request (rejected 403) and per hook WatchUntilReady call (error) discovered from the fault-free run; " +
 			"the projection of the server's request log (effective POST/DELETE on hook objects, WatchUntilReady calls, block of release-resource mutations, readiness wait) must equal the trace of the reference generator. " +
 			"non-trivial = the chart has hooks and the injected fault (if any) was reached; distinct = (driver, initial cluster, history incl. hook set and fault)",
-		Run:    run,
-		Replay: replay,
+		Run:            run,
+		Replay:         replay,
+		CrashViolation: crashViolation,
 		Assumptions: []string{
 			"simulated API server; hook completion (WatchUntilReady) and readiness are scripted: success unless the injected fault says otherwise",
 			"a rejected create is answered 403 Forbidden; a create over an existing object is answered 409 by the sim (natural conflict, no injection)",
-			"all revisions of a history carry the same hook set (charts c-1 {ConfigMap a, Service s} and c-2 {ConfigMap a', Secret x}: every operation mutates release resources)",
+			"all revisions of a history carry the same hook set (charts c-1 {ConfigMap a, Secret x} and c-2 {ConfigMap a', Secret x'}: every operation mutates release resources, except possibly a rollback after an upgrade that failed before touching them - then the RES token is not required)",
 			"at most one release resource per kind; hooks run one at a time, so the request order is deterministic",
 			"only effective deletes (object existed) are compared: a DELETE answered 404 changes nothing and the statement does not speak about it",
 			"the order among several policy deletions issued back to back is not prescribed by the statement and is not compared",
 			"reading used for a hook whose creation is refused: it never existed, so no policy deletion is expected for it; hooks of the same event that already succeeded are still covered by their hook-succeeded policy (ref.go: earlierSucceededCovered=true)",
 			"pre-X hooks precede the first mutation of a release resource and post-X hooks follow the last one and the readiness wait: taken as the definition of the lifecycle events",
 		},
-		RequiredFloors: []string{"order:weight-decides", "order:name-breaks-tie", "order:tie-against-kind-order", "order:weights-more-than-2^63-apart", "uninstall:keep-history-post-hook-failed", "stale:deleted-first", "stale:conflict", "policy:succeeded-delete", "policy:failed-delete",
+		RequiredFloors: []string{"order:weight-decides", "order:name-breaks-tie", "order:tie-against-kind-order", "order:weights-more-than-2^63-apart", "uninstall:keep-history-post-hook-failed",
+			"rollback-after-failed-upgrade", "rollback-after-second-upgrade-failed", "rollback:leftover-of-failed-upgrade-deleted-first", "disabled:atomic-upgrade-undone", "disabled:atomic-install-undone", "stale:deleted-first", "stale:conflict", "policy:succeeded-delete", "policy:failed-delete",
 			"policy:succeeded-after-later-wait-failure", "policy:kept", "gate:pre-failed", "gate:post-failed", "gate:later-hook-skipped", "disabled", "fault:create-rejected", "fault:wait", "hook-in-both-phases",
 			"op:install", "op:upgrade", "op:rollback", "op:uninstall"},
 	})
@@ -111,6 +114,17 @@ func families(thorough bool) []hookSet {
 		for _, k := range kinds {
 			for _, pol := range policySets {
 				out = append(out, hookSet{Family: "F1e", Hooks: []hx.HookSpec{mk("h1", k, []string{e}, 0, pol)}})
+			}
+		}
+	}
+	// F1r: one hook attached to an upgrade event and a rollback event only (it never
+	// runs at install, so revision 1 records no run of it)
+	for _, pu := range phases {
+		for _, pr := range phases {
+			for _, k := range kinds {
+				for _, pol := range policySets {
+					out = append(out, hookSet{Family: "F1r", Hooks: []hx.HookSpec{mk("h1", k, []string{pu + "-upgrade", pr + "-rollback"}, 0, pol)}})
+				}
 			}
 		}
 	}
@@ -252,8 +266,10 @@ func families(thorough bool) []hookSet {
 // ---------- charts, initial states, alphabet ----------
 
 func charts(hooks []hx.HookSpec) (*hx.ChartSpec, *hx.ChartSpec) {
-	c1 := &hx.ChartSpec{Name: "c", Version: "1", Resources: []hx.ResSpec{{Kind: "ConfigMap", Name: "a", Variant: 1}, {Kind: "Service", Name: "s", Variant: 1}}, Hooks: hooks}
-	c2 := &hx.ChartSpec{Name: "c", Version: "2", Resources: []hx.ResSpec{{Kind: "ConfigMap", Name: "a", Variant: 2}, {Kind: "Secret", Name: "x", Variant: 1}}, Hooks: hooks}
+	// same resource names in both charts (content differs): a rollback after a failed
+	// upgrade must not trip over resources that exist in one manifest only
+	c1 := &hx.ChartSpec{Name: "c", Version: "1", Resources: []hx.ResSpec{{Kind: "ConfigMap", Name: "a", Variant: 1}, {Kind: "Secret", Name: "x", Variant: 1}}, Hooks: hooks}
+	c2 := &hx.ChartSpec{Name: "c", Version: "2", Resources: []hx.ResSpec{{Kind: "ConfigMap", Name: "a", Variant: 2}, {Kind: "Secret", Name: "x", Variant: 2}}, Hooks: hooks}
 	return c1, c2
 }
 
@@ -269,6 +285,7 @@ func hookPath(kind, name string) string {
 // init strings: "clean" or "stale:Job/h1+ConfigMap/h2"
 func staleOf(init string) [][2]string {
 	var out [][2]string
+	init = initName(init)
 	if !strings.HasPrefix(init, "stale:") {
 		return nil
 	}
